@@ -70,6 +70,9 @@ class Run:
         out, rc, err = common.run_lines(common.model_driver(), reqs)
         if len(out) != len(reqs):
             raise RuntimeError(f"model driver died rc={rc}: {err[:500]}")
+        for q, y in zip(reqs, out):
+            if y.startswith("bad-request"):
+                raise RuntimeError(f"harness bug (model driver): {q[:200]} -> {y[:200]}")
         return out
 
     def tie(self, name, reqs, nontrivial=None, sanitize=False, key=None):
@@ -112,17 +115,28 @@ class Run:
         self.violations.append({"kind": "impl-violates", "summary": summary, **data})
 
     # ---- Lean side -----------------------------------------------------------------------------
-    def lean(self, prop_module):
-        """Build the property's theorem file, audit it: no sorry/axiom, #print axioms for every theorem."""
+    def lean(self, prop_modules):
+        """Build the property's theorem files, audit them: no sorry/axiom anywhere in the library,
+        `#print axioms` for every theorem of the property files."""
         t = time.time()
-        path = os.path.join(common.LEAN, "PatchModel", "Props", prop_module + ".lean")
-        mod = f"PatchModel.Props.{prop_module}"
-        ok, log = common.lake_build((mod, "modeldriver"))
-        src = open(path).read()
-        names = re.findall(r"^theorem\s+([A-Za-z0-9_'.]+)", src, re.M)
+        if isinstance(prop_modules, str):
+            prop_modules = [prop_modules]
+        self.prop_modules = prop_modules
+        if os.environ.get("VERIF_NOLEAN"):   # development only: never set by the registered commands
+            self.notes.append("VERIF_NOLEAN set: Lean obligations NOT checked")
+            self.violations.append({"kind": "obligation-broken", "theorem": str(prop_modules), "no_input": True, "summary": "VERIF_NOLEAN set"})
+            return
+        mods = [f"PatchModel.Props.{m}" for m in prop_modules]
+        ok, log = common.lake_build((*mods, "modeldriver"))
+        names = []   # fully qualified
+        for m in prop_modules:
+            src = open(os.path.join(common.LEAN, "PatchModel", "Props", m + ".lean")).read()
+            ns = re.search(r"^namespace\s+(\S+)", src, re.M)
+            pre = (ns.group(1) + ".") if ns else ""
+            names += [pre + n for n in re.findall(r"^theorem\s+([A-Za-z0-9_'.]+)", src, re.M)]
         self.obligations = names
         if not ok:
-            self.violations.append({"kind": "obligation-broken", "theorem": mod, "no_input": True,
+            self.violations.append({"kind": "obligation-broken", "theorem": ",".join(mods), "no_input": True,
                                     "summary": "lake build failed: " + log[-1500:]})
             return
         # source audit over the whole library (comments stripped)
@@ -133,26 +147,24 @@ class Run:
                     txt = open(os.path.join(d, f)).read()
                     txt = re.sub(r"/-.*?-/", "", txt, flags=re.S)
                     txt = re.sub(r"--.*", "", txt)
-                    for m in FORBIDDEN.finditer(txt):
-                        bad.append(f"{f}: {m.group(0)}")
+                    for mm in FORBIDDEN.finditer(txt):
+                        bad.append(f"{f}: {mm.group(0)}")
         if bad:
             self.violations.append({"kind": "obligation-broken", "theorem": "source-audit", "no_input": True,
                                     "summary": "forbidden construct: " + ", ".join(bad[:10])})
-        audit = os.path.join(common.WORK, f"Audit_{prop_module}.lean")
-        ns = re.search(r"^namespace\s+(\S+)", src, re.M)
-        pre = (ns.group(1) + ".") if ns else ""
+        audit = os.path.join(common.WORK, f"Audit_{self.pid}.lean")
         with open(audit, "w") as fh:
-            fh.write(f"import {mod}\n" + "".join(f"#print axioms {pre}{n}\n" for n in names))
+            fh.write("".join(f"import {m}\n" for m in mods) + "".join(f"#print axioms {n}\n" for n in names))
         r = common.sh(["lake", "env", "lean", audit], cwd=common.LEAN)
-        txt = r.stdout + r.stderr
+        txt = (r.stdout + r.stderr).replace("\n", " ")
         disc = 0
         for n in names:
-            m = re.search(r"'" + re.escape(pre + n) + r"' (depends on axioms: \[([^\]]*)\]|does not depend on any axioms)", txt)
+            m = re.search(r"'" + re.escape(n) + r"' (depends on axioms: \[([^\]]*)\]|does not depend on any axioms)", txt)
             if not m:
                 self.violations.append({"kind": "obligation-broken", "theorem": n, "no_input": True,
                                         "summary": f"axiom audit found no result for {n}: {txt[-400:]}"})
                 continue
-            ax = set(a.strip() for a in (m.group(2) or "").replace("\n", " ").split(",") if a.strip())
+            ax = set(a.strip() for a in (m.group(2) or "").split(",") if a.strip())
             self.axioms[n] = sorted(ax)
             if ax - TRUSTED_AXIOMS:
                 self.violations.append({"kind": "obligation-broken", "theorem": n, "no_input": True,
@@ -161,11 +173,12 @@ class Run:
                 disc += 1
         self.discharged = disc
         if self.tier == "thorough":
-            r = common.sh(["lake", "env", "leanchecker", mod], cwd=common.LEAN)
-            self.notes.append(f"leanchecker {mod}: rc={r.returncode}")
-            if r.returncode != 0:
-                self.violations.append({"kind": "obligation-broken", "theorem": mod, "no_input": True,
-                                        "summary": "leanchecker rejected the module: " + (r.stdout + r.stderr)[-500:]})
+            for mod in mods:
+                r = common.sh(["lake", "env", "leanchecker", mod], cwd=common.LEAN)
+                self.notes.append(f"leanchecker {mod}: rc={r.returncode}")
+                if r.returncode != 0:
+                    self.violations.append({"kind": "obligation-broken", "theorem": mod, "no_input": True,
+                                            "summary": "leanchecker rejected the module: " + (r.stdout + r.stderr)[-500:]})
         self.notes.append(f"lean build+audit {round(time.time() - t, 1)}s")
 
     # ---- verdict ---------------------------------------------------------------------------------
@@ -208,8 +221,9 @@ class Run:
             "property_id": self.pid, "tier": self.tier, "seed": self.seed, "level": "proof",
             "coverage": {
                 "obligations": len(self.obligations), "discharged": self.discharged,
-                "checker_cmd": f"cd lean && lake build PatchModel.Props.{self.pid} && lake env lean <generated #print axioms file>"
-                               + (" && lake env leanchecker PatchModel.Props." + self.pid if self.tier == "thorough" else ""),
+                "checker_cmd": "cd lean && lake build " + " ".join("PatchModel.Props." + m for m in getattr(self, "prop_modules", [self.pid]))
+                               + " && lake env lean .work/Audit_" + self.pid + ".lean  # generated: #print axioms for every theorem"
+                               + (" && lake env leanchecker <each module>" if self.tier == "thorough" else ""),
                 "trusted_base": ["Lean 4.33.0 kernel", "axioms: propext, Classical.choice, Quot.sound (no native_decide, no bv_decide, no sorry)",
                                  "hand-written Lean model tied to /repo by differential correspondence (sampled): " + ", ".join(sorted(self.ties)),
                                  *trusted_extra],
